@@ -110,7 +110,41 @@ def cmd_check(name, ids):
     return 0
 
 
+def cmd_scratch(name, ids):
+    """like `check`, but on a scratch COPY of /repo's package with the patch applied (VERIF_REPO): /repo is never touched"""
+    d = os.path.join(VERIF, "seeded", name)
+    tmp = tempfile.mkdtemp(prefix="seedrun.", dir="/tmp")
+    results = {}
+    try:
+        shutil.copytree(os.path.join(REPO, "amaranth_soc"), os.path.join(tmp, "amaranth_soc"))
+        rc, out = sh(f"patch -p1 --quiet -i {d}/patch.diff", cwd=tmp)
+        if rc != 0:
+            print("patch does not apply:", out)
+            return 2
+        for pid in ids:
+            env = dict(os.environ, VERIF_EVIDENCE_DIR=os.path.join(tmp, "evidence"), VERIF_REPO=tmp)
+            rc, out = sh(f"./check {pid} --tier quick", cwd=VERIF, env=env, timeout=3600)
+            viol = [l for l in out.splitlines() if l.startswith("VIOLATION")]
+            clauses = sorted({l.split("refuted:")[1].strip().split("@")[0].split("[")[0] for l in out.splitlines() if "refuted:" in l})
+            results[pid] = {"exit": rc, "violations": len(viol), "clauses": clauses,
+                            "confirmed_replay": any("no-failing-input-found" not in l for l in viol)}
+            print(pid, results[pid])
+            if rc not in (0, 1):
+                print(out[-1500:])
+    finally:
+        shutil.rmtree(tmp, ignore_errors=True)
+    m = load_meta(name)
+    cb = m.get("check_results", {})
+    cb.update(results)
+    m["check_results"] = cb
+    m["caught_by"] = sorted(f"{p}:{','.join(r['clauses'])}" for p, r in cb.items() if r["exit"] == 1)
+    save_meta(name, m)
+    return 0
+
+
 if __name__ == "__main__":
+    if sys.argv[1] == "scratch":
+        sys.exit(cmd_scratch(sys.argv[2], sys.argv[3:]))
     a = sys.argv[1:]
     if a[0] == "import":
         sys.exit(cmd_import(*a[1:]))
